@@ -19,6 +19,7 @@ type dataConn struct {
 	Recv    []byte // bytes received after the ConnectionBind success
 	Sent    []byte // bytes written after the ConnectionBind success
 	Closed  bool
+	FinAt   int64 // the plan closed this end gracefully at that instant, while it was open
 	pending []byte
 }
 
@@ -100,6 +101,7 @@ func (c *RawClient) doTCPOp(op *Op) bool {
 				if hasFlag(op, "rst") {
 					dc.Conn.reset()
 				} else {
+					dc.FinAt = c.W.K.Now()
 					_ = dc.Conn.closeHow(false)
 				}
 			}
@@ -142,6 +144,7 @@ type peerConn struct {
 	Recv   []byte
 	Sent   []byte
 	Closed bool
+	FinAt  int64 // the plan closed this end gracefully at that instant, while it was open
 	In     bool // accepted at the peer's listener (the relay dialled out)
 }
 
@@ -207,6 +210,7 @@ func (p *PeerActor) doTCPOp(op *Op) bool {
 				if hasFlag(op, "rst") {
 					pc.Conn.reset()
 				} else {
+					pc.FinAt = w.K.Now()
 					_ = pc.Conn.closeHow(false)
 				}
 			}
@@ -225,6 +229,9 @@ func (w *SrvWorld) checkStreams() {
 	for _, as := range m.M.Allocs {
 		for _, a := range as {
 			for cid, t := range a.TCPs {
+				if debugWrites {
+					w.K.Logf("checkStreams cid=%d bound=%v conn=%v", cid, t.Bound, t.Conn != nil)
+				}
 				if !t.Bound || t.Conn == nil {
 					continue
 				}
@@ -249,14 +256,40 @@ func (w *SrvWorld) checkStreams() {
 						}
 					}
 				}
+				if debugWrites {
+					w.K.Logf("checkStreams cid=%d dc=%v pc=%v", cid, dc != nil, pc != nil)
+				}
 				if dc == nil || pc == nil {
 					continue
 				}
 				w.cmpStream(cid, "c2p", dc.Sent, pc.Recv, dc.Closed || pc.Closed)
 				w.cmpStream(cid, "p2c", pc.Sent, dc.Recv, dc.Closed || pc.Closed)
+				// what an end wrote before it closed (FIN, not reset) comes before its close: it
+				// all arrives, unless the other end closed first or the allocation went meanwhile
+				alive := func(t int64) bool {
+					return (a.End == nil || a.End.Lo > t+5*sec) && a.Deadline.Lo > t+5*sec && (m.serverClosedAt == 0 || m.serverClosedAt > t+5*sec)
+				}
+				if dc.FinAt > 0 && (pc.FinAt == 0 || pc.FinAt > dc.FinAt) && alive(dc.FinAt) {
+					w.cmpStreamEnd(cid, "c2p", dc.Sent, pc.Recv)
+				}
+				if pc.FinAt > 0 && (dc.FinAt == 0 || dc.FinAt > pc.FinAt) && alive(pc.FinAt) {
+					w.cmpStreamEnd(cid, "p2c", pc.Sent, dc.Recv)
+				}
 			}
 		}
 	}
+}
+
+// cmpStreamEnd: the sender closed gracefully while the pipe was up and nothing else ended it.
+func (w *SrvWorld) cmpStreamEnd(cid uint32, dir string, sent, recv []byte) {
+	if len(recv) >= len(sent) || !w.lossFree || len(w.K.StallIntervals()) != 0 || len(w.P.IOFaults) != 0 || w.pausedTCP {
+		if len(recv) >= len(sent) && len(sent) > 0 {
+			w.K.Stats.Probe("tcp_stream_whole_before_fin")
+		}
+		return
+	}
+	w.K.Violate(&Violation{Property: "C16", Class: "stream-mismatch", Key: kv("dir", dir, "how", "cut-before-close"),
+		Detail: fmt.Sprintf("connection %d %s: %d bytes were written and the writer then closed its end; %d arrived before the other end saw the close", cid, dir, len(sent), len(recv))})
 }
 
 func (w *SrvWorld) cmpStream(cid uint32, dir string, sent, recv []byte, closed bool) {
